@@ -312,6 +312,17 @@ def work(task):
                 api_trio(res, q)
                 if len(q) < M:
                     stack.append(q)
+    elif kind == 'esc':
+        # string literals with every backslash + letter / digit followed by hex-digit runs, braces and names: whatever an escape
+        # decoder does with them (today: nothing), no text may make parse / eval / list_names raise anything but ParserError
+        tails = ['', 'F', 'FF', 'FFFF', 'FFFFFFFF', '110000', '00110000', 'D800', '0000D800', '{0}', '{FFFFFFFF}', '{LATIN SMALL LETTER A}', '{}', '999', '0', '{']
+        for q in ('"', "'", 'r"'):
+            for c in task[1]:
+                for tail in tails:
+                    lit = q + '\\' + c + tail + q[-1]
+                    for text in (lit, 'x = ' + lit + '; x', lit + ' + "a"', '%a\\' + c + tail + '%', '# \\' + c + tail):
+                        api_trio(res, text)
+                        res.count('escape_probes')
     elif kind == 'sent':
         _, n, lo, hi = task
         cs = S.constructors()
@@ -427,6 +438,8 @@ def main(tier, seed, t0):
     for c in T.SIGMA_CHAR:
         api_trio(parent, c)
         tasks.append(('chr', c, b['M']))
+    letters = 'abcdefghijklmnopqrstuvwxyzABCDEFGHIJKLMNOPQRSTUVWXYZ0123456789'
+    tasks += [('esc', letters[i:i + 4]) for i in range(0, len(letters), 4)]
     nsk = len(_skeletons(b['N']))
     step = max(1, nsk // 256)
     tasks += [('sent', b['N'], lo, min(nsk, lo + step)) for lo in range(0, nsk, step)]
